@@ -193,6 +193,13 @@ func c06(r *core.Run) {
 	// the value stored under an index key is (id, score, tolerance) of the signature the key belongs to, at every
 	// writer — add, batch add and rebuild (shared with C05)
 	r.Under("C05.PACKARGS", "C06.PACKARGS", func() { c05PackArgs(r) })
+	// what an index-backed scan returns equals what the records say: the pre-filter on the packed values keeps exactly
+	// what the matcher keeps (shared with C08)
+	if r.Prop == "C06" {
+		ex := r.Explain
+		r.Under("C08.PREFILTER", "C06.PREFILTER", func() { c08Prefilter(r) })
+		r.Explain = ex
+	}
 	// records decoded in a loop (rebuild, batch add, scans) must not inherit fields of the previous record
 	c18FreshTarget(r, "C06.FRESH")
 }
